@@ -234,6 +234,10 @@ class FilterSuite(Suite):
         mo = [norm_stat(s) for s in model.get("m", [])]
         agree = io == mo and not impl.get("walkerr")
         notes = []
+        if model.get("canon") is False:
+            # premise of C16.filtered_walk_reports_copier_selection / canonical_check_sound, evaluated on the real walk's listing
+            agree = False
+            notes.append("the unfiltered listing is not canonical for the walk's own ancestor test (C16W.canonB = false)")
         if not agree:
             notes.append("walk impl=%s model=%s %s" % ([bytes.fromhex(s["p"]) for s in io][:8], [bytes.fromhex(s["p"]) for s in mo][:8], impl.get("walkerr") or ""))
         ok = None
@@ -270,7 +274,7 @@ class FilterSuite(Suite):
         pats = [bytes.fromhex(p) for p in op.get("include", []) + op.get("exclude", [])]
         return ["inc=%s" % bool(op.get("include")), "exc=%s" % bool(op.get("exclude")), "map=%s" % bool(op.get("map")),
                 "neg=%s" % any(p.strip().startswith(b"!") for p in pats), "pruned=%s" % (model.get("noprune") is not None and len(model.get("m", [])) >= 0),
-                "ref_eq=%s" % ([s["p"] for s in (impl.get("out") or [])] == model.get("ref"))]
+                "ref_eq=%s" % ([s["p"] for s in (impl.get("out") or [])] == model.get("ref")), "canonical_listing=%s" % model.get("canon")]
 
     def shrink(self, op):
         out = []
